@@ -81,7 +81,7 @@ def observe(x, cls, compact, loose=False, fixpoint_only=False):
     except Exception as ex:  # noqa
         o.update(stage="ser-raises", exn=E.exn_name(ex), detail="serialize(x): " + str(ex)[:200])
         return o
-    pure = SG.only_json_types(j)
+    pure = X.pure_json(j)
     if pure:
         try:
             json.dumps(j)
@@ -112,7 +112,7 @@ def observe(x, cls, compact, loose=False, fixpoint_only=False):
         except Exception as ex:  # noqa
             o.update(stage="not-fixpoint", exn=E.exn_name(ex), detail="serialize(deserialize(serialize(x))) raises: " + str(ex)[:200])
             return o
-        if not doc_eq(j3, j) or not SG.only_json_types(j3):
+        if not doc_eq(j3, j) or not X.pure_json(j3):
             o.update(stage="not-fixpoint", exn="neq", detail="serialize(deserialize(serialize(x))) = %r  serialize(x) = %r" % (j3, j))
     return o
 
@@ -804,10 +804,10 @@ def replay(obj):
     x, y, j = ns.get("x"), ns.get("y"), ns.get("j")
     if obj.get("loose") or has_decimal(x):
         from typedpy import Serializer
-        ok = X.loose_eq(y, x) and SG.only_json_types(j) and Serializer(y).serialize(compact=bool(obj.get("compact"))) == j
+        ok = X.loose_eq(y, x) and X.pure_json(j) and Serializer(y).serialize(compact=bool(obj.get("compact"))) == j
         print("required: output pure JSON, y == x up to the documented loss, serialize(y) == serialize(x);  observed:",
               "holds" if ok else "VIOLATED")
     else:
-        ok = y == x and SG.only_json_types(j)
+        ok = y == x and X.pure_json(j)
         print("required: output pure JSON and y == x;  observed:", "holds" if ok else "VIOLATED")
     return 0 if ok else 1
